@@ -59,10 +59,12 @@ def formula_check(res, model: Model, qual: str, ref_src: str, what: str, opaque:
     return ok
 
 
-def _norm_effect(e, ignore_kinds, ignore_calls, ordered=False):
+def _norm_effect(e, ignore_kinds, ignore_calls, ordered=False, store_fields=None):
     if e[0] == "store":
         _, tgt, how, val = e[:4]
         if "store" in ignore_kinds:
+            return None
+        if store_fields is not None and not any(repr(w) in repr(tgt) for w in store_fields):
             return None
         from ..vn import as_term
         return ("store", tgt, how, as_term(val) if val is not None else None)
@@ -77,21 +79,21 @@ def _norm_effect(e, ignore_kinds, ignore_calls, ordered=False):
     if e[0] == "foreach":
         inner = []
         for conds, fx, r in e[2]:
-            effs = [x for x in (_norm_effect(y, ignore_kinds, ignore_calls, ordered) for y in fx) if x is not None]
+            effs = [x for x in (_norm_effect(y, ignore_kinds, ignore_calls, ordered, store_fields) for y in fx) if x is not None]
             es = tuple(repr(x) for x in effs)
             inner.append((tuple(sorted(map(repr, conds))), es if ordered else tuple(sorted(es)), r))
         return ("foreach", e[1], tuple(sorted(inner, key=repr)))
     return e
 
 
-def _sig(paths, ignore_kinds, ignore_calls, keep_raise_effects, ordered=False):
+def _sig(paths, ignore_kinds, ignore_calls, keep_raise_effects, ordered=False, store_fields=None):
     from collections import Counter
     out = []
     for conds, env, ret in paths:
         fx = env.get("$fx", ())
         if isinstance(ret, Raise) and not keep_raise_effects:
             fx = ()
-        effs = [x for x in (_norm_effect(e, ignore_kinds, ignore_calls, ordered) for e in fx) if x is not None]
+        effs = [x for x in (_norm_effect(e, ignore_kinds, ignore_calls, ordered, store_fields) for e in fx) if x is not None]
         if ordered:
             out.append((frozenset(conds), frozenset((f"{i:03d} " + repr(x), 1) for i, x in enumerate(effs)), ret))
         else:
@@ -101,7 +103,7 @@ def _sig(paths, ignore_kinds, ignore_calls, keep_raise_effects, ordered=False):
 
 def effects_check(res, model: Model, qual: str, ref_src: str, what: str, effect_calls, opaque=(),
                   ignore_kinds=("expr",), ignore_calls=(), rule: str = "R-PAIR", keep_raise_effects=False,
-                  selfcls: Optional[str] = None, ordered: bool = False, aliases=None):
+                  selfcls: Optional[str] = None, ordered: bool = False, aliases=None, store_fields=None):
     """Ledger identity: on every path, the multiset of effects (wallet/cash primitives called with which canonical
     amounts, stores into position fields, the recorded action) equals the reference's, and so does the result."""
     f = qual if isinstance(qual, FuncInfo) else model.func(qual)
@@ -118,8 +120,8 @@ def effects_check(res, model: Model, qual: str, ref_src: str, what: str, effect_
     except Unreadable as e:
         raise AnalysisError(f"{res.prop}: {qual} is outside the evaluator's language ({e}); ledger clause '{what}' "
                             f"cannot be decided")
-    s1 = _sig(p1, ignore_kinds, ignore_calls, keep_raise_effects, ordered)
-    s2 = _sig(p2, ignore_kinds, ignore_calls, keep_raise_effects, ordered)
+    s1 = _sig(p1, ignore_kinds, ignore_calls, keep_raise_effects, ordered, store_fields)
+    s2 = _sig(p2, ignore_kinds, ignore_calls, keep_raise_effects, ordered, store_fields)
     rest = list(s2)
     un = []
     from ..vn import _val_eq
